@@ -287,3 +287,115 @@ end
 
 end HeapAux
 end DendroModel.C03
+
+namespace DendroModel.C03.HeapAux
+open DendroModel DendroModel.C03
+
+/-! ### attaching a fresh leaf (`add_child` / `insert_child` with a new node) refines `modify` -/
+
+theorem reprL_append (h : Heap) (q : Option Nat) : ∀ a b : List T, ReprL h q a → ReprL h q b → ReprL h q (a ++ b)
+  | [], b, _, hb => hb
+  | x :: xs, b, ha, hb => by
+      simp only [ReprL] at ha
+      simp only [List.cons_append, ReprL]
+      exact ⟨ha.1, reprL_append h q xs b ha.2 hb⟩
+
+theorem reprL_take (h : Heap) (q : Option Nat) (n : Nat) : ∀ a : List T, ReprL h q a → ReprL h q (a.take n) ∧ ReprL h q (a.drop n) := by
+  induction n with
+  | zero => intro a ha; simp [ReprL, ha]
+  | succ m ih =>
+    intro a ha
+    cases a with
+    | nil => simp [ReprL]
+    | cons x xs =>
+      simp only [ReprL] at ha
+      have := ih xs ha.2
+      simp only [List.take_succ_cons, List.drop_succ_cons, ReprL]
+      exact ⟨⟨ha.1, this.1⟩, this.2⟩
+
+theorem modify_root_id (p : Nat) (f : T → T) (hf : ∀ x, (f x).id = x.id) : ∀ t : T, (modify p f t).id = t.id
+  | .node j x l s cs => by
+      simp only [modify]
+      split
+      · exact hf _
+      · rfl
+
+theorem modifyL_map_id (p : Nat) (f : T → T) (hf : ∀ x, (f x).id = x.id) : ∀ cs : List T,
+    (modifyL p f cs).map T.id = cs.map T.id
+  | [] => by simp [modifyL]
+  | c :: cs => by simp [modifyL, modify_root_id p f hf c, modifyL_map_id p f hf cs]
+
+mutual
+theorem modify_notin (p : Nat) (f : T → T) : ∀ t : T, p ∉ ids t → modify p f t = t
+  | .node j x l s cs, h => by
+      simp only [ids, List.mem_cons, not_or] at h
+      have : (j == p) = false := by simp; exact fun e => h.1 e.symm
+      simp [modify, this, modifyL_notin p f cs h.2]
+theorem modifyL_notin (p : Nat) (f : T → T) : ∀ cs : List T, p ∉ idsL cs → modifyL p f cs = cs
+  | [], _ => by simp [modifyL]
+  | c :: cs, h => by
+      simp only [idsL, List.mem_append, not_or] at h
+      simp [modifyL, modify_notin p f c h.1, modifyL_notin p f cs h.2]
+end
+
+/- generic attachment: the heap `h'` differs from `h` only in `par k` (now `some p`) and `ch p` (now the ids of
+`g cs`), where `g` places the fresh leaf `k` somewhere among the old children -/
+mutual
+theorem attach_repr (h h' : Heap) (p k : Nat) (lf : T) (g : List T → List T)
+    (hlf : lf.id = k ∧ lf.cs = []) (hk : h'.par k = some p ∧ h'.ch k = [])
+    (hoth : ∀ x, x ≠ k → h'.par x = h.par x) (hoch : ∀ x, x ≠ p → x ≠ k → h'.ch x = h.ch x)
+    (hp : ∀ cs : List T, h.ch p = cs.map T.id → h'.ch p = (g cs).map T.id)
+    (hg : ∀ (hh : Heap) (q : Option Nat) (cs : List T), ReprL hh q cs → Repr hh q lf → ReprL hh q (g cs)) :
+    ∀ (q : Option Nat) (t : T), Repr h q t → (ids t).Nodup → k ∉ ids t →
+      Repr h' q (modify p (fun n => n.withCs (g n.cs)) t)
+  | q, .node j x l s cs, hr, hnd, hkn => by
+      simp only [ids, List.nodup_cons] at hnd
+      simp only [ids, List.mem_cons, not_or] at hkn
+      simp only [Repr] at hr
+      have hjk : j ≠ k := fun e => hkn.1 e.symm
+      simp only [modify]
+      split
+      · rename_i e
+        have hjp : j = p := by simpa using e
+        subst hjp
+        simp only [T.withCs, T.cs, Repr]
+        refine ⟨by rw [hoth j hjk]; exact hr.1, hp cs hr.2.1, ?_⟩
+        apply hg
+        · -- the old children: none of them is `j` or `k`
+          apply agreeL h h' (some j) cs _ hr.2.2
+          intro y hy
+          have hyk : y ≠ k := fun e => hkn.2 (e ▸ hy)
+          have hyp : y ≠ j := fun e => hnd.1 (e ▸ hy)
+          exact ⟨hoth y hyk, hoch y hyp hyk⟩
+        · cases lf with
+          | node i a b c d =>
+            simp only [T.id, T.cs] at hlf
+            obtain ⟨rfl, rfl⟩ := hlf
+            simp only [Repr, ReprL, List.map_nil, and_true]
+            exact hk
+      · rename_i e
+        have hjp : j ≠ p := by simpa using e
+        simp only [Repr]
+        refine ⟨by rw [hoth j hjk]; exact hr.1, ?_, ?_⟩
+        · rw [hoch j hjp hjk, hr.2.1, modifyL_map_id]; intro y; cases y; rfl
+        · exact attachL_repr h h' p k lf g hlf hk hoth hoch hp hg (some j) cs hr.2.2 hnd.2 hkn.2
+theorem attachL_repr (h h' : Heap) (p k : Nat) (lf : T) (g : List T → List T)
+    (hlf : lf.id = k ∧ lf.cs = []) (hk : h'.par k = some p ∧ h'.ch k = [])
+    (hoth : ∀ x, x ≠ k → h'.par x = h.par x) (hoch : ∀ x, x ≠ p → x ≠ k → h'.ch x = h.ch x)
+    (hp : ∀ cs : List T, h.ch p = cs.map T.id → h'.ch p = (g cs).map T.id)
+    (hg : ∀ (hh : Heap) (q : Option Nat) (cs : List T), ReprL hh q cs → Repr hh q lf → ReprL hh q (g cs)) :
+    ∀ (q : Option Nat) (cs : List T), ReprL h q cs → (idsL cs).Nodup → k ∉ idsL cs →
+      ReprL h' q (modifyL p (fun n => n.withCs (g n.cs)) cs)
+  | _, [], _, _, _ => by simp [modifyL, ReprL]
+  | q, c :: cs, hr, hnd, hkn => by
+      simp only [idsL] at hnd
+      simp only [idsL, List.mem_append, not_or] at hkn
+      simp only [ReprL] at hr
+      have hndc := (List.nodup_append.mp hnd).1
+      have hndcs := (List.nodup_append.mp hnd).2.1
+      simp only [modifyL, ReprL]
+      exact ⟨attach_repr h h' p k lf g hlf hk hoth hoch hp hg q c hr.1 hndc hkn.1,
+             attachL_repr h h' p k lf g hlf hk hoth hoch hp hg q cs hr.2 hndcs hkn.2⟩
+end
+
+end DendroModel.C03.HeapAux
